@@ -202,6 +202,8 @@ def seq_array(eng, v):
         if not isinstance(t, (Sym, int, float)):
             raise Unsupported("aggregate over a sequence of non-scalars")
         tt = to_term(t, "real")
+        if z3.is_select(tt) and tt.arg(1).eq(v.i0) and z3.is_const(tt.arg(0)) and tt.arg(0).decl().kind() == z3.Z3_OP_UNINTERPRETED:
+            return tt.arg(0), to_term(v.length)
         return z3.Lambda([v.i0], tt), to_term(v.length)
     if isinstance(v, SymList):
         arr = v.arr
